@@ -16,6 +16,8 @@ DeclMix   == <<PingD(1, 10, 0), TimerD(2, 1), CompD(3, <<11>>, <<"level">>, 0, 0
 DeclReuse == <<PingD(1, 10, 0), CompD(2, <<11>>, <<"oneshot">>, 0, 0), CompD(3, <<12>>, <<"level">>, 0, 0)>>
 DeclTimers == <<PingD(1, 10, 0), TimerD(2, 1), TimerD(3, 1)>>
 DeclLife  == <<CompD(1, <<11, 12>>, <<"level", "level">>, 1, 0), PingD(2, 10, 1)>>
+DeclLifeSynth == <<[CompD(1, <<11, 12>>, <<"level", "level">>, 1, 0) EXCEPT !.synth = <<0, 2>>],
+                   [PingD(2, 10, 1) EXCEPT !.synth = <<1>>]>>
 DeclEdge  == <<CompD(1, <<11>>, <<"edge">>, 0, 0), CompD(2, <<12>>, <<"oneshot">>, 0, 1)>>
 
 AllRets == {"continue", "reregister", "disable", "remove", "err"}
